@@ -14,6 +14,7 @@ import (
 
 	"verif/harness/canon"
 	"verif/harness/rt"
+	"verif/harness/srv"
 	"verif/harness/xport"
 )
 
@@ -35,6 +36,10 @@ type c02Case struct {
 	Reads    []int  `json:"read_cuts,omitempty"`  // stream offsets where a new read() result starts; nil+ViaReader = one read
 	Via      string `json:"via"`                  // "writepacket" (Channel.WritePacket directly) | "reader" (transport + reader goroutine)
 	Bounds   []int  `json:"package_bounds"`
+	// Prelude: a complete earlier response (one packet) is delivered and
+	// consumed on the same channel first; the response under test is then
+	// the second one on that channel.
+	Prelude bool `json:"second_response_on_channel,omitempty"`
 }
 
 // c02Packets builds the packets (header+body) for a case.
@@ -118,11 +123,28 @@ type c02Out struct {
 // the library never blocks on its bounded queues); once the input is
 // processed it is stopped and the rest is drained without blocking.
 func c02Deliver(pkts [][]byte, via string, reads []int) (out c02Out, err error) {
+	return c02DeliverOpt(pkts, via, reads, false)
+}
+
+func c02DeliverOpt(pkts [][]byte, via string, reads []int, prelude bool) (out c02Out, err error) {
 	k, err := newKit(4096, 0)
 	if err != nil {
 		return out, err
 	}
 	defer k.teardown()
+	if prelude {
+		// an earlier, complete response: RETURNSTATUS + DONE(COUNT) -> the
+		// library supplies the final DONE
+		first := append(srv.ReturnStatus(77), srv.Done(srv.TokDone, srv.DoneCount, 0, 1)...)
+		k.tr.Feed(xport.Packet(byte(tds.TDS_BUF_RESPONSE), xport.EOM, 0, first))
+		if !awaitIdle(k.tr, 30*time.Second) {
+			out.watchdog = true
+			return out, nil
+		}
+		if d := drainChannel(k.ch, k.ctx); len(d.Dumps) != 3 || len(d.Errs) != 0 {
+			return out, fmt.Errorf("prelude response delivered %v / %v", d.Types, d.Errs)
+		}
+	}
 	cctx, ccancel := context.WithCancel(context.Background())
 	var mu sync.Mutex
 	var got delivered
@@ -204,7 +226,7 @@ func c02Exec(c *Ctx, cs c02Case, ref c02Ref) {
 	r.Eval(1)
 	body, _ := hex.DecodeString(cs.BodyHex)
 	pkts := c02Packets(body, cs.Cuts, cs.EmptyAt, cs.EmptyEOM)
-	out, err := c02Deliver(pkts, cs.Via, cs.Reads)
+	out, err := c02DeliverOpt(pkts, cs.Via, cs.Reads, cs.Prelude)
 	if err != nil {
 		r.Inconclusive("cannot set up connection: %v", err)
 		return
@@ -230,10 +252,13 @@ func c02Exec(c *Ctx, cs c02Case, ref c02Ref) {
 		inside = true
 	}
 	if inside {
-		key, _ := json.Marshal([]interface{}{cs.Resp, cs.Family, cs.Cuts, cs.EmptyAt, cs.EmptyEOM, cs.Reads})
+		key, _ := json.Marshal([]interface{}{cs.Resp, cs.Family, cs.Cuts, cs.EmptyAt, cs.EmptyEOM, cs.Reads, cs.Prelude})
 		r.Distinct(string(key))
 	}
 	fam := cs.Family
+	if cs.Prelude {
+		fam = "second-response/" + fam
+	}
 	if len(out.d.Errs) > 0 {
 		r.Violate("error-surfaced/"+fam, fmt.Sprintf("response %s, %d packets: %d error(s) surfaced for a merely fragmented response, first: %s", cs.Resp, len(pkts), len(out.d.Errs), out.d.Errs[0]), cs)
 		return
@@ -312,11 +337,19 @@ func runC02(c *Ctx) {
 		}
 		ref := &c02Ref{d: refOut.d, ok: true}
 		base := c02Case{Resp: resp.Name, BodyHex: hex.EncodeToString(body), Bounds: resp.Bounds(), Via: "writepacket"}
+		nadd := 0
 		add := func(fam string, mod func(cs *c02Case)) {
 			cs := base
 			cs.Family = fam
 			mod(&cs)
 			jobs = append(jobs, job{cs, ref})
+			// every 5th packetisation is also delivered as the second
+			// response on its channel (state left by an earlier response)
+			nadd++
+			if nadd%5 == 0 {
+				cs.Prelude = true
+				jobs = append(jobs, job{cs, ref})
+			}
 		}
 		rnd := rt.NewRand(c.Seed, "c02/"+resp.Name)
 		// (a) every single cut
